@@ -193,9 +193,59 @@ static int big(uint64_t seed) {
     return 0;
 }
 
+/* --shared <rounds> <threads>: one handle, read for the FIRST time by several threads at once
+ * (released together from a barrier), then freed once. Every thread must see the same len,
+ * observation count and step bits; LeakSanitizer (ASan build) reports what is not released. */
+typedef struct { kodama_dendrogram *d; pthread_barrier_t *bar; uint64_t sum; } shared_job;
+static void *shared_reader(void *arg) {
+    shared_job *j = arg;
+    pthread_barrier_wait(j->bar);
+    size_t len = kodama_dendrogram_len(j->d);
+    uint64_t h = fnv(0xcbf29ce484222325ULL, kodama_dendrogram_observations(j->d)); h = fnv(h, len);
+    kodama_step *st = len ? kodama_dendrogram_steps(j->d) : NULL;
+    for (size_t i = 0; i < len; i++) { h = fnv(h, st[i].cluster1); h = fnv(h, st[i].cluster2); h = fnv(h, dbits(st[i].dissimilarity)); h = fnv(h, st[i].size); }
+    j->sum = h;
+    return 0;
+}
+static int shared_rounds(int rounds, int threads, int check) {
+    size_t before = in_use();
+    uint64_t st = 12345;
+    for (int r = 0; r < rounds; r++) {
+        size_t n = 2 + (size_t)(lcg(&st) >> 33) % 400, len = n * (n - 1) / 2;
+        int wide = r % 2;
+        kodama_dendrogram *d;
+        if (wide) { double *v = malloc(len * sizeof(double)); for (size_t k = 0; k < len; k++) v[k] = 1.0 + (double)(lcg(&st) >> 12) / 4503599627370496.0;
+                    d = kodama_linkage_double(v, n, r % 3 ? kodama_method_average : kodama_method_single); free(v); }
+        else { float *v = malloc(len * sizeof(float)); for (size_t k = 0; k < len; k++) v[k] = (float)(1.0 + (double)(lcg(&st) >> 12) / 4503599627370496.0);
+               d = kodama_linkage_float(v, n, r % 3 ? kodama_method_complete : kodama_method_ward); free(v); }
+        pthread_barrier_t bar; pthread_barrier_init(&bar, NULL, threads);
+        shared_job *jobs = calloc(threads, sizeof(shared_job)); pthread_t *th = calloc(threads, sizeof(pthread_t));
+        for (int t = 0; t < threads; t++) { jobs[t].d = d; jobs[t].bar = &bar; pthread_create(&th[t], NULL, shared_reader, &jobs[t]); }
+        for (int t = 0; t < threads; t++) pthread_join(th[t], NULL);
+        for (int t = 1; t < threads; t++) if (jobs[t].sum != jobs[0].sum) { fprintf(stderr, "shared: thread %d read different steps than thread 0 (round %d, n=%zu)\n", t, r, n); return 6; }
+        pthread_barrier_destroy(&bar); free(jobs); free(th);
+        kodama_dendrogram_free(d);
+    }
+    size_t after = in_use();
+    printf("shared rounds %d threads %d in_use_before %zu after %zu\n", rounds, threads, before, after);
+    if (check && after > before + 4096) {
+        fprintf(stderr, "shared: %zu bytes still allocated after %d handles were each read by %d threads at once and freed exactly once\n", after - before, rounds, threads);
+        return 5;
+    }
+    return 0;
+}
+
 int main(int argc, char **argv) {
     int threads = 1; const char *path = NULL;
     for (int i = 1; i < argc; i++) {
+        if (!strcmp(argv[i], "--shared") && i + 2 < argc) {
+            printf("shared\n"); fflush(stdout);
+            int w = shared_rounds(8, atoi(argv[i + 2]), 0);   /* warm-up (thread stacks, stdio) */
+            if (w) return w;
+            /* no allocator accounting here: glibc's per-thread arenas make bytes-in-use meaningless
+             * across thread creation; leaks are LeakSanitizer's business in the ASan build */
+            return shared_rounds(atoi(argv[i + 1]), atoi(argv[i + 2]), 0);
+        }
         if (!strcmp(argv[i], "--big") && i + 1 < argc) return big(strtoull(argv[i + 1], NULL, 10));
         if (!strcmp(argv[i], "--soak") && i + 2 < argc) {
             printf("soak\n"); fflush(stdout);
